@@ -42,6 +42,18 @@ CLAIMS = {
             "§3.9, §4 C16"),
 }
 
+CLAIMS.update({
+    "C17": ("symbolic layout agreement (polynomial offsets) + index-guard dominance",
+            "LAYOUT L4 for gwb-dat: request list vs library width table vs printed offsets vs header column count for dim 2 "
+            "and 3 (polynomials in compositions, grain compositions, grains); row query argument provenance; every literal "
+            "token index guarded by a size test. Known findings: 2D offsets, 3D header",
+            "§3.2, §3.4, §4 C17"),
+    "C18": ("symbolic layout agreement + provenance + parallel-loop discipline",
+            "LAYOUT L4 for gwb-grid (output offsets -> data_set slots, dataSetInfo, filter_vtu_mesh literals), same-index node "
+            "provenance, PAR on the parallel callables and the pool, structure of the mesh filter. Grid generation itself is not decided",
+            "§3.2, §3.11, §4 C18"),
+})
+
 NOT_APPLICABLE = {
     "C20": "bounds and monotonicity of transcendental cooling profiles are real-analysis facts about run-time quantities; "
            "no sound static argument in reach (DESIGN.md §4 C20)",
